@@ -36,7 +36,7 @@ def run(ck):
     for l in ex:
         if l.startswith("direct ") and " FAIL " in l:
             m = re.search(r"history=(\S+)", l)
-            ck.fail_input("snapshot", l, (history_replay(l, m.group(1)) if m else []) + [l])
+            ck.fail_input(l.split()[1], l, (history_replay(l, m.group(1)) if m else []) + [l])
             witnessed = True
     for l in lines:
         if l.startswith("propfail "):
@@ -57,11 +57,12 @@ def run(ck):
 
     # lock table + concurrent runs
     if not ck.replay:
+        # both tiers run the concurrent parts twice: plain binary (more real parallelism, the runtime's
+        # concurrent-map checks) and a -race build (the clause "no data race occurs" is judged by the race detector)
         bins = [(ck.harness_bin, "c05conc.txt")]
-        if ck.tier == "thorough":
-            race_bin = ck.build_harness("topic", race=True)
-            if race_bin:
-                bins.append((race_bin, "c05conc_race.txt"))
+        race_bin = ck.build_harness("topic", race=True)
+        if race_bin:
+            bins.append((race_bin, "c05conc_race.txt"))
         lock_broken = []
         for b, name in bins:
             before = len(ck.broken)
@@ -105,6 +106,10 @@ def run(ck):
                 continue
             if not os.path.exists(lpath):
                 continue
+            for l in open(lpath).read().splitlines():
+                if l.startswith("direct ") and " FAIL " in l:
+                    ck.fail_input(l.split()[1], l, [l])
+                    witnessed = True
             for l in ck.model("topic", "c05lin", lpath):
                 if l.startswith("propfail lin "):
                     w = l.split(" ", 3)
